@@ -1217,6 +1217,11 @@ func (f *Field) Import(rowIDs, columnIDs []uint64, timestamps []*time.Time, opts
 
 		var standard []string
 		if timestamp == nil {
+			if f.options.NoStandardView {
+				// Same as SetBit(): without a standard view there is no
+				// place for a bit that carries no timestamp.
+				continue
+			}
 			standard = []string{viewStandard}
 		} else {
 			standard = viewsByTime(viewStandard, *timestamp, q)
